@@ -74,8 +74,8 @@ prop('C16', prefix=['c16'],
      outside='the moved-formula printer for operators other than +, functions, arrays and separators (known to drop parentheses), paste orchestration in '
              'clipboard.rs, conditional-format ranges and defined names under cut, values, ranges in the Model-level harness')
 prop('C17', prefix=['c17'],
-     bounds='three sheets; `=Sheet2!A1+Sheet3!$B$2+Ghost!C3+D4+Ghost!A1:B2` on Sheet1 and `=A1*Sheet1!B5` on Sheet2, typed through the real parser; rename of '
-            'any of the three sheets to one of New / My Sheet / a&b / TRUE; move of any sheet to any index',
+     bounds='three sheets; `=Sheet2!A1+Sheet3!$B$2+Ghost!C3+D4+Ghost!A1:B2` on Sheet1 `=A1*Sheet1!B5` on Sheet2 and `=Sheet2!A1#` on Sheet3, typed through the real parser; rename of '
+            'any of the three sheets to one of New / My Sheet / a&b / TRUE / its own name in upper case; move of any sheet to any index',
      outside='computed values (the rename re-evaluates; values are not compared), defined names, duplicate_sheet, formulas with function calls, other names')
 prop('C18', prefix=['c18'],
      bounds='one cell at a symbolic position holding one of: the numbers 1.5 / 123 / -0.25 / 1234567.5, TRUE, FALSE, the text abc, the quote-prefixed texts '
